@@ -2723,9 +2723,14 @@ fn format_slice(
 	}
 	else
 	{
-		let slice = argument.generate(llvm)?;
-		let (slice_ptr, slice_len) =
-			generate_ptr_and_len_from_slice(slice, llvm)?;
+		// An array view consists of a pointer and a length, an array does not.
+		if let ValueType::Slice { .. } = argument.value_type()
+		{
+			let slice = argument.generate(llvm)?;
+			let (slice_ptr, slice_len) =
+				generate_ptr_and_len_from_slice(slice, llvm)?;
+			let _ = (slice_ptr, slice_len);
+		}
 		// let n = ?
 		// for i in 0..n {
 		//
@@ -2734,7 +2739,6 @@ fn format_slice(
 		// for i in 0..n {
 		// TODO call the same llvm IR snippet for multiple Expressions
 		// TODO my Generator currently doesn't have a nice way to do that
-		let _ = (slice_ptr, slice_len);
 		// }
 		// LLVMBuildArrayAlloca
 		buffer.add_text("[");
